@@ -35,6 +35,8 @@ def run(ctx, rep):
         # "no operation fails merely because of the others": a slot that another task still holds (or that was
         # freed) must not shadow a live request when the shared 8-bit index wraps (C01 clause 4 re-checked)
         slotfsm.s8(prog, rep, "C20", slotfsm.transitions(prog)[0], tag)
+        one_slot_per_transfer(prog, rep, tag)
+        index_reuse(prog, rep, tag)
 
 
 def _classify(prog, ty, trait, memo, depth=0):
@@ -179,6 +181,63 @@ def handle_callers(prog, rep, tag):
             if has_root(r, "field", "SubDeviceGroup", "inner"):
                 ok = b.root_short in ("<SubDeviceGroup as SubDeviceGroupHandle>::push", "<SubDeviceGroup as SubDeviceGroupHandle>::as_ref", "SubDeviceGroup::inner")
                 rep.ob(P, "inner.get<-%s%s" % (b.root_short, tag), ok, "SubDeviceGroup.inner's UnsafeCell opened in %s" % b.root_short, loc=c.span, how="inventory")
+
+
+def one_slot_per_transfer(prog, rep, tag):
+    """'no operation fails merely because of the others as long as fewer frames are in flight than the
+    storage holds': a response the caller still holds keeps its slot claimed.  The only operation that
+    issues further requests while holding a response is the segmented SDO upload; it must let go of the
+    initiate response before it asks for the first segment, or one transfer pins two slots."""
+    P = "C20.slots"
+    b = prog.async_body("Coe::sdo_read")
+    pr = Prov(b)
+    seg = b.calls_to("SdoSegmented::upload")
+    first = [c for c in b.calls() if (c.decl_s or "").endswith("mailbox_write_read") and seg and b.dominates(c.bb, seg[0].bb) and c.bb not in b.reachable_strict(seg[0].bb)]
+    drops = []
+    for c in b.calls():
+        if c.is_("mem::drop") and any(x[0] == "await" and x[1].endswith("mailbox_write_read") and first and x[2] == first[0].bb for x in pr.of_operand(c.args[0])):
+            drops.append(c)
+    for bi in b.live_blocks():
+        t = b.term(bi)
+        if t["k"] == "drop" and "ReceivedPdu" in (t.get("ty") or "") and "(" not in (t.get("ty") or "") and seg and b.dominates(bi, seg[0].bb) and bi not in b.reachable_strict(seg[0].bb):
+            drops.append(t)
+    ok = len(seg) == 1 and len(first) == 1 and any((getattr(d, "bb", None) is not None and b.dominates(d.bb, seg[0].bb)) or isinstance(d, dict) for d in drops)
+    rep.ob(P, "sdo_read:initiate-response-released-before-segments" + tag, ok, "the segmented upload drops the initiate response (whose slot stays claimed while it is held) before the first segment request is allocated: one transfer occupies one slot at a time", loc=b.span, how="path")
+    # no other function awaits a new request while it holds a ReceivedPdu / ReceivedFrame of an earlier one: inventory
+    holders = []
+    for body in prog.bodies:
+        if body.crate != "ethercrab" or not body.coroutine:
+            continue
+        reqs = [c for c in body.calls() if (c.decl_s or "").split("::")[-1] in ("mailbox_write_read", "single_pdu", "alloc_frame")]
+        if len(reqs) >= 2:
+            holders.append(body.root_short)
+    rep.analysed["functions issuing several requests" + tag] = len(set(holders))
+
+
+def index_reuse(prog, rep, tag):
+    """'no task ever receives another task's response': responses are routed by the 8-bit index of a frame's
+    first datagram, taken from one wrapping counter shared by all tasks.  Unless the allocation skips
+    indices that are still the routing key of a frame in use, 256 allocations by fast tasks while a slow
+    frame is outstanding give two live frames the same key (C01 assumes this away explicitly; C20's
+    quantifier - latencies up to 500 us, tasks free to run in between - does not)."""
+    P = "C20.index"
+    bad = []
+    n = 0
+    for fn in ("CreatedFrame::push_pdu", "CreatedFrame::push_pdu_slice_rest"):
+        b = prog.body(fn)
+        nx = [c for c in b.calls() if c.is_("FrameBox::next_pdu_idx")]
+        n += len(nx)
+        cl = prog.callees_closure([b], depth=4)
+        scans = [g.root_short for g in cl if g.calls_to("FrameElement::first_pdu_is")]
+        if nx and not scans:
+            bad.append(fn)
+    rep.floor("C20 index allocation sites" + tag, n, 2)
+    if bad:
+        rep.violation(P, "first-index-unique-among-live-frames" + tag,
+                      "%s take the routing index straight from the shared wrapping counter (FrameBox::next_pdu_idx) without checking it against the first-datagram markers of frames that are still in use: after 256 allocations a second live frame carries the same key and the lookup hands the first response to whichever slot comes first" % " and ".join(bad),
+                      loc=prog.body(bad[0]).span)
+    else:
+        rep.ob(P, "first-index-unique-among-live-frames" + tag, True, "the index given to a frame's first datagram is checked against the markers of the frames in use", how="path")
 
 
 def pdi_lockers(prog):
